@@ -37,7 +37,15 @@ pub fn strip_ticks(forms: &[Form]) -> Vec<Form> {
 
 fn display_form(ch: &mut Chooser, k: usize) -> Vec<Form> {
     let q = |d: Datum| Expr::Quote(d);
-    let e = match ch.below(13) {
+    let e = match ch.below(15) {
+        // inexact reals: the binary and the library interface work at the same precision
+        13 => match ch.below(4) {
+            0 => app("/", vec![Expr::Real("1.0".into()), Expr::Int(3)]),
+            1 => app("+", vec![Expr::Real("0.1".into()), Expr::Real("0.2".into())]),
+            2 => app("*", vec![Expr::Real("1.1".into()), Expr::Real("1.1".into())]),
+            _ => app("list", vec![app("/", vec![Expr::Int(2), Expr::Real("3.0".into())]), Expr::Real("0.5".into())]),
+        },
+        14 => Expr::Real(ch.pick_s(&["0.1", "3.14159", "2.5", "100.25", "0.333", "16777217.0"]).to_string()),
         10 => Expr::RawStr(ch.pick_s(&["name:  \nvalue", "a\t\nb", "line one \n\n  line three", "ends with blank \n"]).to_string()),
         11 => Expr::RawStr(ch.pick_s(&["two\nlines", "tab\there", "x \n y \n z"]).to_string()),
         12 => app("list", vec![Expr::RawStr("in a list \nsecond".into()), Expr::Int(1)]),
